@@ -136,7 +136,8 @@ theorem cornersOf_error {q : Quads} {e : Err} (h : cornersOf q = .error e) : e =
 /-- every rejection of `reorient` is a `DegenerateGeometryError` (`notConvex` and `degenerate` are the two messages of
     that class) — or the view is undefined (observer at the centre / ceiling on the observer's axis: `nan` in the code) -/
 theorem reorient_error {pts : List V3} {sim : List (Nat × Nat × Nat)} {obs ceil : V3} {e : Err}
-    (h : reorient pts sim obs ceil = .error e) : e = .notConvex ∨ e = .degenerate ∨ e = .badView := by
+    (h : reorient pts sim obs ceil = .error e) : e = .notConvex ∨ e = .degenerate ∨
+      (e = .badView ∧ ((dirsOf (average pts) obs ceil).o = V3.zero ∨ (dirsOf (average pts) obs ceil).t = V3.zero)) := by
   unfold reorient makeTriangles at h
   split at h
   · rename_i e' hm
@@ -153,7 +154,8 @@ theorem reorient_error {pts : List V3} {sim : List (Nat × Nat × Nat)} {obs cei
       unfold reorientCore at h
       simp only at h
       split at h
-      · cases h; exact Or.inr (Or.inr rfl)
+      · rename_i hv
+        cases h; exact Or.inr (Or.inr ⟨rfl, hv⟩)
       · split at h
         · rename_i e' hq
           cases h
